@@ -867,6 +867,17 @@ func (ex *Exec) instr(fr *Frame, b *ssa.BasicBlock, in ssa.Instruction, st *Stat
 		}
 		fr.defers = append(fr.defers, d)
 	case *ssa.Send:
+		if ex.isMailbox(x.Chan) {
+			ch := ex.scalar(ex.get(fr, x.Chan, st))
+			elem := under(x.Chan.Type()).(*types.Chan).Elem()
+			o := ex.vc.oblige("chan", fr.name("chan-put-full:"+chanFieldKey(x.Chan)), reach, Not(Select(mboxFull(st), ch)), ex.where(x.Pos()))
+			o.Descr = "a send on a full one-slot mailbox would block forever (single goroutine)"
+			ex.vc.assume(Implies(reach, Not(Select(mboxFull(st), ch))))
+			ex.mboxPut(ch, elem, ex.get(fr, x.X, st), st)
+			ex.mboxSetFull(ch, True, st)
+			ex.vc.Assumptions["mailbox model: "+chanFieldKey(x.Chan)+" is a capacity-1 channel touched by one goroutine at a time"] = true
+			break
+		}
 		if ci := ex.chanInvOf(x.Chan); ci != nil {
 			env := &SpecEnv{vars: map[string]Val{ci.Var: ex.get(fr, x.X, st)}, st: st, lst: st, pkg: fnPkg(fr.fn), topOld: fr.entry.top}
 			env.old = env
@@ -876,6 +887,23 @@ func (ex *Exec) instr(fr *Frame, b *ssa.BasicBlock, in ssa.Instruction, st *Stat
 		// channel send: no effect on modelled memory (channels are opaque); single-thread assumption
 		ex.vc.Assumptions["channels are opaque: a send has no modelled effect, a receive yields an arbitrary value (no deadlock reasoning)"] = true
 	case *ssa.Select:
+		if len(x.States) == 1 && !x.Blocking && x.States[0].Dir == types.RecvOnly && ex.isMailbox(x.States[0].Chan) {
+			// take-if-present
+			chv := x.States[0].Chan
+			ch := ex.scalar(ex.get(fr, chv, st))
+			elem := under(chv.Type()).(*types.Chan).Elem()
+			full := ex.vc.define("mfull", Select(mboxFull(st), ch))
+			val := ex.mboxGet(ch, elem, st)
+			tup := x.Type().(*types.Tuple)
+			tv := TupleV{E: []Val{Scalar{Ite(full, IntLit(0), IntLit(-1)), types.Typ[types.Int]}, Scalar{full, types.Typ[types.Bool]}}}
+			if tup.Len() > 2 {
+				zero := ex.zeroVal(elem)
+				tv.E = append(tv.E, ex.mergeVals("taken", []Val{val, zero}, []Term{full, Not(full)}))
+			}
+			ex.mboxSetFull(ch, False, st)
+			fr.regs[x] = tv
+			break
+		}
 		ex.vc.Assumptions["channels are opaque: a send has no modelled effect, a receive yields an arbitrary value (no deadlock reasoning)"] = true
 		idx := ex.vc.fresh("selidx", SInt)
 		lo := IntLit(0)
@@ -1167,6 +1195,79 @@ func (ex *Exec) goStmt(fr *Frame, c *ssa.CallCommon, st *State, reach Term, pos 
 			ex.vc.Assumptions["stable invariant of a started goroutine assumed while it runs: "+e.Text] = true
 		}
 	}
+}
+
+// chanFieldKey names the struct field (pkg.Type.field) a channel value was loaded from.
+func chanFieldKey(ch ssa.Value) string {
+	ld, ok := ch.(*ssa.UnOp)
+	if !ok || ld.Op != token.MUL {
+		return ""
+	}
+	fa, ok := ld.X.(*ssa.FieldAddr)
+	if !ok {
+		return ""
+	}
+	pt, ok := under(fa.X.Type()).(*types.Pointer)
+	if !ok {
+		return ""
+	}
+	named, ok := pt.Elem().(*types.Named)
+	if !ok || named.Obj().Pkg() == nil {
+		return ""
+	}
+	st, ok := under(named).(*types.Struct)
+	if !ok {
+		return ""
+	}
+	return named.Obj().Pkg().Path() + "." + named.Obj().Name() + "." + st.Field(fa.Field).Name()
+}
+
+func (ex *Exec) isMailbox(ch ssa.Value) bool {
+	k := chanFieldKey(ch)
+	return k != "" && ex.prog.Contracts.Mailboxes[k]
+}
+
+// Mailbox model of a capacity-1 channel touched by one goroutine at a time: ghost heaps keyed by the channel.
+func mboxFull(st *State) Term { return st.heap("G|mbox.full", ArraySort(SBool)) }
+
+func (ex *Exec) mboxLeafHeap(elem types.Type, l leaf, st *State) (string, Term) {
+	name := "G|mbox." + typeKey(elem) + "." + l.Name
+	heapLeafTypes[name] = l.Ty
+	return name, st.heap(name, ArraySort(sortOf(l.Ty)))
+}
+
+func (ex *Exec) mboxGet(ch Term, elem types.Type, st *State) Val {
+	var build func(t types.Type, prefix []int) Val
+	build = func(t types.Type, prefix []int) Val {
+		if s, ok := under(t).(*types.Struct); ok {
+			out := StructV{Ty: t, F: make([]Val, s.NumFields())}
+			for i := 0; i < s.NumFields(); i++ {
+				out.F[i] = build(s.Field(i).Type(), append(append([]int(nil), prefix...), i))
+			}
+			return out
+		}
+		_, h := ex.mboxLeafHeap(elem, leaf{prefix, pathName(elem, prefix), t}, st)
+		return Scalar{Select(h, ch), t}
+	}
+	return build(elem, nil)
+}
+
+func (ex *Exec) mboxPut(ch Term, elem types.Type, v Val, st *State) {
+	for _, l := range leavesOf(elem) {
+		name, h := ex.mboxLeafHeap(elem, l, st)
+		nh := ex.vc.fresh(name, h.Sort)
+		ex.vc.assume(Eq(nh, Store(h, ch, ex.scalar(leafOf(v, l.Path)))))
+		st.heaps[name] = nh
+		ex.noteWrite(name, ch)
+	}
+}
+
+func (ex *Exec) mboxSetFull(ch Term, full Term, st *State) {
+	h := mboxFull(st)
+	nh := ex.vc.fresh("G|mbox.full", h.Sort)
+	ex.vc.assume(Eq(nh, Store(h, ch, full)))
+	st.heaps["G|mbox.full"] = nh
+	ex.noteWrite("G|mbox.full", ch)
 }
 
 // chanInvOf finds the channel invariant attached to the struct field a channel value was loaded from.
